@@ -280,12 +280,55 @@ func (u *Unit) fnShort(fn *ssa.Function) string {
 	return fn.String()
 }
 
+// lostGhost: the clause behind the obligation speaks about a ghost variable that only library or callee contracts set
+// (`sets $g = ...`), and this function no longer makes any call that carries such a clause - the observation points the
+// contract was written against are gone (the code now reaches the same end by other calls). A counterexample is then an
+// artefact of the ghost keeping its initial value; like a counterexample behind an uncut loop it needs a replayed input.
+func (u *Unit) lostGhost(name string) string {
+	if u.fn == nil || u.fc == nil {
+		return ""
+	}
+	if u.lostGhosts == nil {
+		u.lostGhosts = map[string]string{}
+		may := u.p.ghostsSetBy(u.fn)
+		own := map[string]bool{}
+		for _, c := range u.fc.Clauses {
+			if c.Kind == "set-at-call" {
+				if i := strings.Index(c.Expr, "$"); i >= 0 {
+					if m := setsNameRe.FindStringSubmatch(c.Expr[i:]); m != nil {
+						own[m[1]] = true
+					}
+				}
+			}
+		}
+		for _, c := range u.fc.Clauses {
+			if c.Label == "" || (c.Kind != "ensures" && c.Kind != "ensures-local" && c.Kind != "invariant") {
+				continue
+			}
+			for _, g := range ghostRefRe.FindAllString(c.Expr, -1) {
+				if u.p.ghostHasSets(g) && !strings.HasPrefix(g, "$seen") && !may[g] && !may["*"] && !own[g] {
+					u.lostGhosts[c.Label] = "no call that observes " + g + " (a contract with `sets " + g + "`) is left in this function"
+				}
+			}
+		}
+	}
+	for l, w := range u.lostGhosts {
+		if i := strings.Index(l, "."); i >= 0 && strings.HasPrefix(name, l[:i]+".") && (strings.HasSuffix(name, l[i:]) || strings.Contains(name, l[i:]+".")) {
+			return w
+		}
+	}
+	return ""
+}
+
 // oblige records an obligation and then assumes its goal on the path.
 func (u *Unit) oblige(s *State, name string, props []string, kind, goal string, pos token.Pos) {
 	if goal == "true" {
 		return
 	}
 	o := &Oblig{Name: name, Props: props, Kind: kind, PC: append([]string{}, s.pc...), Goal: goal, Unit: u, PathDeps: append([]string{}, s.checked...), Weak: s.weak}
+	if o.Weak == "" && (kind == "ensures" || kind == "invariant") {
+		o.Weak = u.lostGhost(name)
+	}
 	if pos.IsValid() {
 		o.Pos = u.p.prog.Fset.Position(pos)
 	}
@@ -369,11 +412,29 @@ func (u *Unit) execBlock(s *State, fn *ssa.Function, b, from *ssa.BasicBlock, k 
 		if s.visit[b] > 0 {
 			// back edge: re-establish invariants
 			u.checkInvariants(s, fn, l, "step")
+			// error propagation (C12): the path ends here, so an error a call returned during this iteration and that
+			// the code carried to the end of the iteration without returning it is dropped (the next iteration
+			// starts from the invariant, which knows nothing of it)
+			if u.fc != nil && u.fc.Opts["propagate-errors"] != "" && fn == u.fn {
+				if from, ok := s.errsAtLoop[b]; ok && from <= len(s.errs) {
+					for _, er := range s.errs[from:] {
+						goal := fmt.Sprintf("(=> (not (= (itype %s) 0)) %s)", er.term.S, er.tol)
+						saved := s.pc
+						s.pc = append([]string{}, saved...)
+						u.oblige(s, fmt.Sprintf("C12.%s.propagates.%s", u.fnShort(fn), er.name), []string{"C12"}, "propagation", goal, er.pos)
+						s.pc = saved
+					}
+				}
+			}
 			u.npaths++
 			return
 		}
 		u.checkInvariants(s, fn, l, "init")
 		s.visit[b]++
+		if s.errsAtLoop == nil {
+			s.errsAtLoop = map[*ssa.BasicBlock]int{}
+		}
+		s.errsAtLoop[b] = len(s.errs)
 		u.havocLoop(s, fn, l)
 		u.assumeInvariants(s, fn, l)
 	}
